@@ -129,6 +129,16 @@ def constructor(rep, idx):
     rep.check(bool(ok), "C11.4", site, "element signature is built with the summed width", f"Element.Signature call: {ir.show(sig) if sig else None}")
     # __iter__: single field -> ((), field); else flatten()
     it = idx.find_func("Register.__iter__")
+    # a thin wrapper `return self._private_generator()` delegates its yields
+    for _ in range(2):
+        body = [s for s in it.node.body if not (isinstance(s, ast.Expr) and isinstance(s.value, ast.Constant))]
+        if len(body) == 1 and isinstance(body[0], ast.Return) and isinstance(body[0].value, ast.Call) and not body[0].value.args and \
+                isinstance(body[0].value.func, ast.Attribute) and ast.unparse(body[0].value.func.value) == "self":
+            tgt = idx.lookup_method(it.cls, body[0].value.func.attr)
+            if tgt is not None and any(isinstance(n, (ast.Yield, ast.YieldFrom)) for n in ast.walk(tgt.node)):
+                it = tgt
+                continue
+        break
     ys = [ir.norm(ir.from_ast(n.value, {})) for n in ast.walk(it.node) if isinstance(n, (ast.Yield, ast.YieldFrom)) and n.value is not None]
     want = {ir.norm(ir.parse("((), self.field)")), ir.norm(ir.parse("self.field.flatten()"))}
     want2 = {ir.norm(ir.parse("((), self._field)")), ir.norm(ir.parse("self._field.flatten()"))}
